@@ -501,6 +501,14 @@ def k_generate(run, case):
             tokens.append(str(c["choices"][rng.integers(len(c["choices"]))]))
         elif c["kind"] == "str":
             tokens.append(["out_file.zip", "some/path.pdf", "name with space", "results"][rng.integers(4)])
+    if rng.random() < .2:
+        # the same valued option named twice (defaults from an alias first, the override last):
+        # the last one counts, as with argparse
+        cands = [c for c in chosen if c["kind"] in ("int", "float", "choice")]
+        if cands:
+            c = cands[rng.integers(len(cands))]
+            early = str(int(rng.integers(0, 50))) if c["kind"] != "choice" else str(c["choices"][rng.integers(len(c["choices"]))])
+            tokens = [c["opt"], early] + tokens
     if "forced" in case:
         tokens = list(case["forced"])
         chosen = [o for o in opts if o["opt"] in tokens]
